@@ -21,6 +21,7 @@ var hostileLits = []struct {
 	{`'`, 2}, {`$`, 2}, {`$0`, 2}, {`%`, 2}, {`%d`, 2}, {`%!s`, 2}, {`{{`, 2}, {`{{.}}`, 2}, {`}}`, 2}, {`*/`, 2}, {`/*`, 2}, {`//`, 2},
 	{`é`, 2}, {`世界`, 2}, {"\t", 2}, {`<-`, 2}, {`:=`, 2}, {`;`, 2}, {`|`, 2}, {`<<`, 2}, {`>`, 2}, {`\x41`, 1}, {`"\"`, 1},
 	{`unknown`, 2}, {`Error`, 2}, {`EOF`, 2}, {"a\nb", 1}, {"\r", 1}, {"x\n// y", 1},
+	{"a\x00b", 2}, {"\xff", 2}, {"a\xc3", 2}, {"\ufeff", 2}, {"\u2028", 2}, {"\x1b[0m", 2}, {"\x7f", 2},
 }
 
 var hostileTokNames = []string{"tké", "t!x", "t_1", "tñ9", "tk世", "t!", "int64", "type", "func", "nil"}
